@@ -98,6 +98,9 @@ impl VerifFetcher {
 }
 
 /// (queued, in flight)
+pub(crate) fn fetcher_farthest(f: &ReplicationFetcher) -> Option<Distance> {
+    f.farthest_acceptable_distance
+}
 pub(crate) fn fetcher_counts(f: &ReplicationFetcher) -> (usize, usize) {
     (f.to_be_fetched.len(), f.on_going_fetches.len())
 }
